@@ -24,6 +24,8 @@ def judge_c08(case, log):
         ordered = all(a <= b for a, b in zip(valid_ts, valid_ts[1:]))
         cap = case["init_len"]
         buf = []
+        learned = False
+        wrong_cap = None
         for ev in h:
             if ev[0] == "recv":
                 if ev[1][2] == 0:
@@ -31,9 +33,21 @@ def judge_c08(case, log):
                     buf = buf[-cap:]
                 continue
             _, T, passed, val, sp, maxlen, linked = ev
-            if maxlen != cap:       # the buffer was resized at this tick: the most recent `maxlen` are kept
-                cap = maxlen
+            # "the configured buffer": initial_buffer_len until the input period is learned, from then on the
+            # documented capacity for that period (computed here, not read from the implementation; the peeked
+            # capacity only decides between the integers a float ceil may legitimately give)
+            if sp is not None and not learned:
+                learned = True
+                doc, allowed = R.documented_capacity(case, sp)
+                newcap = maxlen if maxlen in allowed else doc
+                if maxlen not in allowed:
+                    wrong_cap = (T, sp, maxlen, doc)
+                cap = newcap
                 buf = buf[-cap:]
+            elif maxlen != cap and wrong_cap is None:
+                out.append(f"capacity: series {sid} tick {T}: the buffer capacity changed from {cap} to {maxlen} although the "
+                           f"input period was {'already known' if learned else 'not learned'}")
+                break
             peff = p if sp is None else max(p, sp)
             lo = T - R._div_round_he(peff * an, ad)
             expected = [x for x in buf if lo < x[0] <= T]
@@ -52,7 +66,8 @@ def judge_c08(case, log):
                 break
             if ordered and passed != expected:
                 out.append(f"window: series {sid} tick {T}: the function got {_brief(passed)}, the buffered samples stamped in "
-                           f"({lo}, {T}] are {_brief(expected)} (capacity {cap}, input period {sp})")
+                           f"({lo}, {T}] are {_brief(expected)} (configured capacity {cap}, input period {sp}"
+                           + (f"; the implementation resized its buffer to {wrong_cap[2]} at tick {wrong_cap[0]}, documented {wrong_cap[3]}" if wrong_cap else "") + ")")
                 break
             if ordered and (val is None) != (not expected):
                 out.append(f"none-iff-empty: series {sid} tick {T}: emitted {'None' if val is None else 'a value'} while "
@@ -134,6 +149,8 @@ class C08Stream(R.ScenarioStream):
                     cap = maxlen
                 if sp is not None and lastsp is None:
                     out.append("upsampling(sp>period)" if sp > p else "downsampling(sp<=period)")
+                    if sp == p:
+                        out.append("input_period_exactly_equals_period" + ("(period!=1s)" if p != 10**6 else "(1s)"))
                 lastsp = sp
                 peff = p if sp is None else max(p, sp)
                 lo = T - R._div_round_he(peff * an, ad)
